@@ -15,7 +15,7 @@ EXTENDS Naturals, Sequences, FiniteSets, TLC, TLCExt, Json, IOUtils
 
 DH == INSTANCE DecodeHistory WITH Mods <- {"m1", "m2"}, Absent <- {"a1"}, Variant <- "repaired",
                                   MaxHistory <- 1000, cache <- <<>>, hist <- 0,
-                                  last <- [cache |-> "ud", mod |-> "m1", beh |-> "ok"], lastResult <- ""
+                                  last <- [cache |-> "ud", mod |-> "m1", beh |-> "ok", plugins |-> TRUE], lastResult <- ""
 
 Recs == ndJsonDeserialize(IOEnv.TRACE_FILE)
 VARIABLE i
